@@ -86,7 +86,7 @@ def cachePathFromURL (root path esc : Text) : Option Text :=
   let d := base archDir
   let cacheFile := clean (joinList [root, esc, d, filename])
   let cleanroot := clean root
-  if !hasPrefix cacheFile cleanroot then none else some cacheFile
+  if cacheFile = cleanroot ∨ !hasPrefix cacheFile cleanroot then none else some cacheFile
 
 /-- `cacheDirFromFile` -/
 def cacheDirFromFile (cacheFile : Text) : Text :=
@@ -500,7 +500,7 @@ def guardedFrom : Bool → Bool → List Step → Bool
   | sn, so, s :: rest =>
     match s.kind with
     | .san .name => guardedFrom true so rest
-    | .san .old => guardedFrom sn true rest
+    | .san .old => guardedFrom sn so rest
     | .linkCond => guardedFrom sn true rest
     | .disk op _ => sn && (op != .link || so) && guardedFrom sn so rest
     | _ => guardedFrom sn so rest
